@@ -11,6 +11,7 @@ VDP = [dict(ops.mk(3, joliet=3), vdp={'set_size': 2, 'seqnum': 1, 'sys_ident': '
 B = _std.default_bounds(big=True)
 B['quick'].append(('dfs', 'quick', VDP, 1, 1))
 B['thorough'].append(('dfs', 'quick', VDP, 2, 1))
+B['thorough'].append(('big', _std.BIG_GEN2[:5]))      # second-generation images with multi-gigabyte files
 
 _std.install(globals(), 'C03', 'model_checking', [oracles.oracle_ecma119], B,
              ['independent decoder mc/readers/r119.py is trusted base'] + ['alphabet sigma1 of mc/ops.py and the depth bounds listed in the evidence'])
